@@ -625,7 +625,30 @@ def _corr_case(rng, standalone=None):
     cats = catalogs()
     catname = r.choice(sorted(cats))
     has_ns = cats[catname].get('default_namespace') == 'proj'
-    kind = r.choice(['sel', 'sel', 'sel', 'ins', 'cta', 'upd', 'del', 'misc'])
+    kind = r.choice(['sel', 'sel', 'sel', 'ins', 'cta', 'upd', 'del', 'misc', 'api', 'data'])
+    if kind == 'api':
+        # int1 is an API integration: plan_api_db_select (fetch with targets/where/order/limit, then plan_sub_select on what
+        # is left); nested selects are always planned (force=True)
+        t = r.choice(['int1.tab1', 'int1.tab2'])
+        v = r.choice([0, 1, 2, 3, 4])
+        if v == 0:
+            sql, term = 'select * from %s%s%s' % (t, r.choice(['', ' where x = 1']), r.choice(['', ' limit 2'])), '(api (u) 0 (u))'
+        elif v == 1:
+            sql, term = 'select %s from %s where x > 1' % (r.choice(['x', 'id, x', 'max(x)']), t), '(api (u) 1 (u))'
+        elif v == 2:
+            sql, term = 'select * from %s %s' % (t, r.choice(['order by x', 'group by x', 'where x = 1 order by x limit 3'])), '(api (u) 1 (u))'
+        elif v == 3:
+            sql = 'select * from %s where x in (select id from %s)' % (t, r.choice(['int1.tab2', 'int2.tab3']))
+            term = '(bind %s (api (u 0) 0 (u)))' % ('(api (u) 1 (u))' if 'int1.tab2)' in sql else '(tab 0 (u))')
+        else:
+            sql = 'select x, (select max(id) from int2.tab3) as m from %s' % t
+            term = '(bind (tab 0 (u)) (api (u 0) 1 (u 0)))'
+        return dict(sql=sql, cat='api', line='0 (sel %s)' % term, shape='api')
+    if kind == 'data':
+        # FROM <injected Data>: DataStep, then plan_sub_select(add_absent_cols=True)
+        v = r.choice([0, 1, 2])
+        sql, w = [('select * from injected', 0), ('select * from injected where x = 1', 1), ('select x from injected limit 2', 1)][v]
+        return dict(sql=sql, cat=catname, line='0 (sel (dat %d (u)))' % w, shape='data', inject_data=True)
     if kind == 'misc':
         sql, line = r.choice([("insert into int1.t9 (a, b) values (1, 's')", '(insv)'),
                               ('create table int1.t9 (a int, b text)', '(ct 1)'),
